@@ -615,7 +615,8 @@ class Workspace(AbstractContextManager):
             )
 
         if isinstance(entity, (Concatenated, ConcatenatedPropertyGroup)):
-            entity.concatenator.remove_entity(entity)
+            # through the parent, so that the entity also leaves parent.children
+            entity.parent.remove_children([entity])
             return
 
         self.workspace.remove_recursively(entity)
